@@ -10,14 +10,16 @@ pub fn stub_format(_a: core::fmt::Arguments<'_>) -> String { String::new() }
 pub const JDN_MIN: i64 = 1721424; // 0001-01-01
 pub const JDN_MAX: i64 = 5373484; // 9999-12-31
 
-// ---- contract of JulianDay::from_ymd_hms (midnight form) -------------------------------------
-// requires: a calendar-shaped triple at 00:00:00 (the form every day-level caller uses)
-// ensures : day == jdn(y,m,d) - 0.5 exactly (f64), jdn from the first-principles spec
+// ---- contract of JulianDay::from_ymd_hms ---------------------------------------------------------
+// requires: a calendar-shaped triple and a clock reading
+// ensures : at 00:00:00 (the form every day-level caller uses) day == jdn(y,m,d) - 0.5 exactly (f64),
+//           jdn from the first-principles spec; for other clock readings this contract says nothing
+//           (the clock part is obligation c12_k_jd_roundtrip)
 pub fn pre_from_ymd_hms(year: isize, month: usize, day: usize, hour: usize, minute: usize, second: usize) -> bool {
-  year >= 0 && year <= 10000 && month >= 1 && month <= 12 && day >= 1 && day <= 31 && hour == 0 && minute == 0 && second == 0
+  year >= 0 && year <= 10000 && month >= 1 && month <= 12 && day >= 1 && day <= 31 && hour < 24 && minute < 60 && second < 60
 }
-pub fn post_from_ymd_hms(year: isize, month: usize, day: usize, _hour: usize, _minute: usize, _second: usize, r: f64) -> bool {
-  r == (spec::jdn(year as i64, month as i64, day as i64) as f64) - 0.5
+pub fn post_from_ymd_hms(year: isize, month: usize, day: usize, hour: usize, minute: usize, second: usize, r: f64) -> bool {
+  !(hour == 0 && minute == 0 && second == 0) || r == (spec::jdn(year as i64, month as i64, day as i64) as f64) - 0.5
 }
 
 fn k1_body(ylo: isize, yhi: isize) {
@@ -31,15 +33,17 @@ fn k1_body(ylo: isize, yhi: isize) {
 }
 //@SLICES prefix=c01_k1_ymd2jd call=k1_body lo=0 hi=10000 n=32 attr="#[kani::proof_for_contract(JulianDay::from_ymd_hms)]"
 
-// ---- contract of JulianDay::get_solar_time (integer-day form) --------------------------------
-// requires: self.day == n - 0.5 for an integer day number n of a date 0001-01-01..9999-12-31
-// ensures : the result is a valid civil date at 00:00:00 whose day number is n
+// ---- contract of JulianDay::get_solar_time ---------------------------------------------------------
+// requires: a Julian date inside the supported range 0001-01-01 00:00 .. 9999-12-31 24:00
+// ensures : for self.day == n - 0.5 with n an integer day number (the form every day-level caller uses):
+//           the result is a valid civil date at 00:00:00 whose day number is n. For fractional dates this
+//           contract says nothing (obligations c12_k_jd_roundtrip / c12_jd_fraction cover the clock part).
 pub fn pre_get_solar_time(day: f64) -> bool {
-  let n = (day + 0.5) as i64;
-  n >= JDN_MIN && n <= JDN_MAX && day == (n as f64) - 0.5
+  day >= (JDN_MIN as f64) - 0.5 && day < (JDN_MAX as f64) + 0.5
 }
 pub fn post_get_solar_time(day: f64, r: &SolarTime) -> bool {
   let n = (day + 0.5) as i64;
+  if day != (n as f64) - 0.5 { return true; }
   let (y, m, d) = (r.get_year() as i64, r.get_month() as i64, r.get_day() as i64);
   spec::valid_date(y, m, d) && spec::jdn(y, m, d) == n && r.get_hour() == 0 && r.get_minute() == 0 && r.get_second() == 0
 }
@@ -72,3 +76,24 @@ fn k3q_body(ylo: isize, yhi: isize) {
 //@SLICES prefix=c01_k3q_jd2ymd call=k3q_body lo=1 hi=9999 n=100
 
 // ---- weekday (C07) ---------------------------------------------------------------------------
+fn c07_week_body(nlo: isize, nhi: isize) {
+  let n: i64 = kani::any();
+  kani::assume(n >= nlo as i64 && n <= nhi as i64);
+  let w = JulianDay::from_julian_day((n as f64) - 0.5).get_week();
+  assert!(w.get_index() as i64 == spec::weekday_of(n), "weekday == (day number + 1) mod 7");
+  kani::cover!(n == nlo as i64, "c07 week reachable");
+}
+//@SLICES prefix=c07_k_week call=c07_week_body lo=1721424 hi=5373484 n=1
+
+// C11: JulianDay::next adds exactly n (f64 addition is exact in this range)
+#[kani::proof]
+#[kani::stub(alloc::fmt::format, stub_format)]
+fn c11_k_jd_next() {
+  let k: i64 = kani::any(); let n: isize = kani::any();
+  kani::assume(k >= -20000000 && k <= 20000000 && n >= -2000000000 && n <= 2000000000);
+  let x = JulianDay::from_julian_day((k as f64) * 0.5);            // any half-integral Julian date
+  let r = x.next(n);
+  assert!(r.get_day() == ((k + 2 * n as i64) as f64) * 0.5, "next(n) adds exactly n days");
+  assert!(r.subtract(x) == n as f64, "subtract is the exact difference");
+  kani::cover!(n == -1, "jd_next reachable");
+}
